@@ -60,4 +60,55 @@ example : (∀ op ∈ exOps, op.keysIn [1, 2, 3]) ∧ (run natEq exOps).desiredL
   simp only [exOps, List.mem_cons, List.not_mem_nil, or_false] at h
   rcases h with rfl | rfl | rfl | rfl | rfl <;> simp [Op.keysIn]
 
+/-! ### Convergence: applying everything pending reaches InSync -/
+
+theorem specRun_append (eqv : V → V → Bool) (a b : List (Op K V)) :
+    specRun eqv (a ++ b) = b.foldl (specStep eqv) (specRun eqv a) := by
+  simp [specRun, List.foldl_append]
+
+/-- **Convergence of the tracker itself.**  After ANY history, one `PendingUpdates().Iter`
+whose callback applies every item followed by one `PendingDeletions().Iter` that applies
+every item leaves `InSync()` true, the desired map untouched, and the dataplane map equal to
+the desired map up to `valuesEqual` (exactly equal when `valuesEqual` is equality, see
+`no_pending_iff_equal`). -/
+theorem apply_all_converges (eqv : V → V → Bool) (hs : Sym eqv) (hr : Refl eqv) (ops : List (Op K V))
+    (hw : ∀ op ∈ ops, op.WF) :
+    let ops' := ops ++ [.uIter (fun _ => Act.update), .xIter (fun _ => Act.update)]
+    (run eqv ops').inSync = true ∧
+    (∀ k, (specRun eqv ops').des k = (specRun eqv ops).des k) ∧
+    (∀ k, pendU eqv ((specRun eqv ops).des k, (specRun eqv ops').dp k) = false ∧
+          pendX ((specRun eqv ops).des k, (specRun eqv ops').dp k) = false) := by
+  intro ops'
+  have hw' : ∀ op ∈ ops', op.WF := by
+    intro op h
+    simp only [ops', List.mem_append, List.mem_cons, List.not_mem_nil, or_false] at h
+    rcases h with h | rfl | rfl
+    · exact hw op h
+    · trivial
+    · trivial
+  obtain ⟨hi, -, ha⟩ := tracker_refines eqv hs hr ops' hw'
+  have hd : ∀ k, desiredGet (run eqv ops') k = (specRun eqv ops').des k := fun k => congrFun (congrArg Spec.des ha) k
+  have hp : ∀ k, dataplaneGet (run eqv ops') k = (specRun eqv ops').dp k := fun k => congrFun (congrArg Spec.dp ha) k
+  have key : ∀ k, (specRun eqv ops').des k = (specRun eqv ops).des k ∧
+      pendU eqv ((specRun eqv ops).des k, (specRun eqv ops').dp k) = false ∧
+      pendX ((specRun eqv ops).des k, (specRun eqv ops').dp k) = false := by
+    intro k
+    simp only [ops', specRun_append, List.foldl_cons, List.foldl_nil, specStep, specAt, decide_true]
+    generalize (specRun eqv ops).des k = d
+    generalize (specRun eqv ops).dp k = q
+    have hrr := hr
+    unfold Refl at hrr
+    cases d <;> cases q <;> simp [sUIter, sXIter, pendU, pendX, hrr]
+    rename_i v w
+    by_cases h : eqv v w = true <;> simp [h, hrr]
+  refine ⟨?_, fun k => (key k).1, fun k => (key k).2⟩
+  rw [inSync_iff eqv hr _ hi]
+  intro k
+  rw [hd, hp, (key k).1]
+  exact (key k).2
+
+/-- Non-vacuity on the example history: it is out of sync before and in sync after. -/
+example : (run natEq exOps).inSync = false ∧
+    (run natEq (exOps ++ [.uIter (fun _ => Act.update), .xIter (fun _ => Act.update)])).inSync = true := by
+  decide
 end CalicoVerif.C18
